@@ -45,7 +45,9 @@ META = {
                   "cumulative, groupby-agg, merge/join/concat, sort/set_index/reset_index/drop_duplicates) plus a family of ~110 operations whose "
                   "result dtype depends on whether a missing value is inserted (shift by +-k and 0, diff, rolling, cumulative, ffill/bfill, "
                   "align / binary operators / assign / where against another index, combine_first, concat(axis=1), outer joins, groupby "
-                  "shift/first/last) frame-wide on int+uint+bool+float+object+datetime columns and per column, alone and behind a first "
+                  "shift/first/last) frame-wide on int+uint+bool+float+object+datetime columns and per column, and a family of 150 index-aligned "
+                  "operations between NOT co-aligned collections with different partition counts in both orders and unknown divisions on one / both "
+                  "sides (npartitions = partitions really built = len(divisions)-1 is part of every observation), alone and behind a first "
                   "row-wise step, on seeded partitionings; for each collection _meta, compute() and every partition computed through its own "
                   "key are described and TLC decides the invariant: kind, column names and order, dtype classes, index name, index dtype "
                   "class, partition count.",
